@@ -6,7 +6,7 @@
 From Coq Require Import ZArith List Bool Arith Lia String.
 From FV Require Import Model.PegSyntax Model.Peg Model.ParserStrings Model.ParserAst Model.ParserActions Model.Parser
      Proofs.ParserLexProofs Proofs.ParserEvals Proofs.ParserRoundTrip Proofs.ParserRoundTripEnum
-     Proofs.ParserRoundTripStruct Proofs.ParserRoundTripConst Proofs.ParserRoundTripFile.
+     Proofs.ParserRoundTripStruct Proofs.ParserRoundTripConst Proofs.ParserRoundTripService Proofs.ParserRoundTripFile.
 Import ListNotations.
 Local Open Scope Z_scope.
 
@@ -185,13 +185,63 @@ Proof.
   destruct (cn_v d); cbn [cv_okb cv_ok] in *; [exact (int64b_ok _ Hcv) | exact (run_ofb_ok _ _ Hcv)].
 Qed.
 
+(** ** services *)
+Definition nl_ledb (w : bytes) : bool := match w with [] => true | d :: _ => d =? 10 end.
+Lemma nl_ledb_ok : forall w, nl_ledb w = true -> nl_led w.
+Proof. intros [|d w] H; [exact I|]. cbn in *. apply Z.eqb_eq in H. exact H. Qed.
+
+Definition ow_okb (ow : ow_spec) : bool := match ow with OW_none => true | OW_oneway W => run_ofb p_wsnl W end.
+Definition ret_okb (r : ret_spec) : bool :=
+  match r with R_void W => run_ofb p_wsnl W | R_type t W => ty_okb t && run_ofb p_wsnl W && nl_ledb W end.
+Definition fn_tail_okb (tl : fn_tail) : bool :=
+  match tl with
+  | FN_plain W2 => run_ofb p_wsnl W2
+  | FN_sep W2 sep W3 => run_ofb p_wsnl W2 && is_sepb sep && run_ofb p_wsnl W3
+  | FN_throws W2 W4 W5 fs g sep W3 =>
+    run_ofb p_wsnl W2 && run_ofb p_wsnl W4 && run_ofb p_wsnl W5 && fds_okb fs && run_ofb p_blank g
+    && match sep with Some s => is_sepb s | None => nl_ledb W3 end && run_ofb p_wsnl W3
+  end.
+Definition fn_okb (f : fn_spec) : bool :=
+  ow_okb (fn_ow f) && ret_okb (fn_ret f) && identb (fn_c f) (fn_t f) && run_ofb p_blank (fn_g f)
+  && run_ofb p_wsnl (fn_w f) && fds_okb (fn_args f) && fn_tail_okb (fn_tl f).
+Definition sv_okb (s : sv_spec) : bool :=
+  run_ofb p_blank (v_g1 s) && identb (sv_c s) (sv_t s) && run_ofb p_wsnl (sv_w1 s) && run_ofb p_wsnl (sv_w2 s)
+  && forallb fn_okb (sv_fns s) && run_ofb p_blank (sv_g3 s) && run_ofb p_wsnl (sv_w s).
+
+Ltac band_all := repeat match goal with H : (_ && _) = true |- _ => apply andb_true_iff in H; destruct H end.
+
+Lemma fn_okb_ok : forall f, fn_okb f = true -> fn_ok f.
+Proof.
+  intros f H. unfold fn_okb in H. band_all.
+  match goal with Hid : identb _ _ = true |- _ => destruct (identb_ok _ _ Hid) as (Hc & Hp & Ht) end.
+  unfold fn_ok. fin_ok; try (apply fds_okb_ok; assumption).
+  - destruct (fn_ow f); cbn [ow_okb ow_ok] in *; [exact I | apply run_ofb_ok; assumption].
+  - destruct (fn_ret f); cbn [ret_okb ret_ok] in *; band_all; fin_ok;
+      try (apply ty_okb_ok; assumption); try (apply nl_ledb_ok; assumption).
+  - destruct (fn_tl f) as [W2|W2 sep W3|W2 W4 W5 fs g sep W3]; cbn [fn_tail_okb fn_tail_ok] in *; band_all; fin_ok;
+      try (apply fds_okb_ok; assumption).
+    destruct sep; [apply is_sepb_ok | apply nl_ledb_ok]; assumption.
+Qed.
+
+Lemma sv_okb_ok : forall s, sv_okb s = true -> sv_ok s.
+Proof.
+  intros s H. unfold sv_okb in H. band_all.
+  match goal with Hid : identb _ _ = true |- _ => destruct (identb_ok _ _ Hid) as (Hc & Hp & Ht) end.
+  unfold sv_ok. fin_ok.
+  match goal with Hf : forallb fn_okb _ = true |- _ => rewrite forallb_forall in Hf; apply Forall_forall; intros f Hin;
+    exact (fn_okb_ok f (Hf f Hin)) end.
+Qed.
+
 (** ** files *)
 Definition xdecl_okb (d : xdecl) : bool :=
-  match d with X_typedef t => td_okb t | X_enum e => en_okb e | X_struct s => st_okb s | X_const c => cn_okb c end.
+  match d with X_typedef t => td_okb t | X_enum e => en_okb e | X_struct s => st_okb s | X_const c => cn_okb c
+  | X_service v => sv_okb v end.
 Definition fragment_okb (w0 : bytes) (ds : list xdecl) : bool := run_ofb p_wsnl w0 && forallb xdecl_okb ds.
 
 Lemma xdecl_okb_ok : forall d, xdecl_okb d = true -> xdecl_ok d.
-Proof. intros [t|e|s|c] H; cbn [xdecl_okb xdecl_ok] in *; auto using td_okb_ok, en_okb_ok, st_okb_ok, cn_okb_ok. Qed.
+Proof.
+  intros [t|e|s|c|v] H; cbn [xdecl_okb xdecl_ok] in *; auto using td_okb_ok, en_okb_ok, st_okb_ok, cn_okb_ok, sv_okb_ok.
+Qed.
 
 Theorem fragment_check_sound : forall w0 ds,
   fragment_okb w0 ds = true -> parse_idl (w0 ++ render_file ds) = POk (frugal_of ds).
